@@ -155,4 +155,27 @@ PROPS = {
         "quick": {"budget_s": 120, "chunk": 6, "chunk_timeout_s": 1200},
         "thorough": {"budget_s": 1500, "chunk": 6, "minimise_s": 240, "chunk_timeout_s": 2400},
     },
+    "C13": {
+        "test": "TestC13",
+        "level": "fault_enumeration",
+        "world": "C: one node, real vdr.Module (didsubject.SqlManager, didweb and didnuts managers), real single-node Network engine, gorm on the SQL seam, KV stores on the KV seam",
+        "rule": "enum phase: each case is a seeded sequence of 2-4 subject operations (create, add/update/delete service, add key, deactivate) on 1-2 subjects with "
+                "DID methods {web,nuts}, {nuts} or {web}; every fault point of the sequence (SQL statement error, SQL commit failure, process stop before / after "
+                "each SQL commit, KV operation error, KV commit failure, process stop before / after / between the hooks of each KV commit inside the did:nuts "
+                "publish) is fired once in turn, followed by restart, the rollback sweep, the model comparison and a repeated attempt; sampled phase: longer "
+                "sequences, seeded fault subsets (up to 3 per run) and concurrent operations on the same subject name. Distinct = (case, fault point) signatures plus decision hashes.",
+        "invariants": ["C13.atomic", "C13.log-empty", "C13.versions", "C13.unique-subject", "C13.retry"],
+        "assumptions": KV_ASSUME + ["SQLite only; row-lock behaviour of other databases is not simulated",
+                                    "the sweep is the manager's Rollback, run after 150 virtual seconds (the module's own loop runs as well when did:nuts is enabled)",
+                                    "'commit acknowledged but lost' is not injected"],
+        "probes_expected": ["restart-after-crash", "retry-after-rollback", "crash.sql-after-commit", "crash.sql-before-commit", "sql.commit-fail", "sql.statement-error"],
+        "quick": {"phases": [
+            {"name": "enum", "env": {"VERIF_MODE": "enum"}, "budget_s": 80, "chunk": 1, "base": 1000000},
+            {"name": "sampled", "budget_s": 50, "chunk": 20},
+        ]},
+        "thorough": {"phases": [
+            {"name": "enum", "env": {"VERIF_MODE": "enum"}, "budget_s": 900, "chunk": 1, "base": 1000000},
+            {"name": "sampled", "budget_s": 600, "chunk": 20},
+        ], "minimise_s": 120},
+    },
 }
